@@ -64,8 +64,8 @@ PROPS = {
         lean_props="Receptor.Props.C09",
         engines=[dict(engine="verify", pkg=NETC, test="TestVerifVerify", n_quick=150, n_thorough=2000),
                  dict(engine="cert", pkg=NETC, test="TestVerifCert", n_quick=20, n_thorough=200)],
-        corr_ops={"verify": ["verify", "verifyseq"], "cert": ["issue"]},
-        facts=["rvf_pin_lengths", "rvf_steps", "rvf_usages", "rvf_name_rule", "rvf_name_compare", "tls_client_cfg", "tls_listener_expected"],
+        corr_ops={"verify": ["verify", "verifyseq", "mtls", "verifytime"], "cert": ["issue"]},
+        facts=["rvf_pin_lengths", "rvf_steps", "rvf_usages", "rvf_name_rule", "rvf_name_compare", "tls_client_cfg", "tls_listener_expected", "rvf_closure", "rvf_pin_subject", "tls_server_clientauth", "tls_listener_bind_when"],
         trusted=["crypto/x509 (parsing, chain building, validity, key usage, DNS-name verification) and crypto/tls: oracle booleans "
                  "with ground truth known by construction of the certificates",
                  "the TLS handshake itself (that VerifyPeerCertificate is called, that GetConfigForClient is honoured) is exercised by "
@@ -246,9 +246,10 @@ PROPS = {
     "C20": dict(
         lean_props="Receptor.Props.C20",
         engines=[dict(engine="der", pkg="pkg/utils", test="TestVerifDER", n_quick=400, n_thorough=4000),
-                 dict(engine="cert", pkg=NETC, test="TestVerifCert", n_quick=40, n_thorough=400)],
-        corr_ops={"der": ["san", "names"], "cert": ["issue"]},
-        facts=["der_strip"],
+                 dict(engine="cert", pkg=NETC, test="TestVerifCert", n_quick=40, n_thorough=400),
+                 dict(engine="verify", pkg=NETC, test="TestVerifVerify", n_quick=10, n_thorough=200)],
+        corr_ops={"der": ["san", "names"], "cert": ["issue"], "verify": ["verify", "verifyseq", "mtls", "verifytime"]},
+        facts=["der_strip", "rvf_closure"],
         trusted=["encoding/asn1 Marshal/Unmarshal for the subset used (modelled byte-exactly, validated by the der engine)",
                  "crypto/x509 copying the SAN extension from request to certificate (exercised by the cert engine, not modelled)"],
         assumptions=["extension shorter than 2^31 bytes (Go's own DER length limit)",
